@@ -5,8 +5,11 @@ Multi-frame decoding (C10): a frame decoded from `f ++ rest` is decoded exactly 
 leaving `rest` untouched (append lemmas for every reader and loop); `decode_all` over any
 concatenation of frames and skippable frames.
 -/
+set_option linter.unusedSectionVars false
 namespace Zstd.Model
 open Zstd
+
+variable {σ : Type} [BlockDec σ] [BlockContract σ]
 
 theorem readExact_append (n : Nat) (s x : Src) (t r : List Nat) (h : readExact n s = some (t, r)) :
     readExact n (s ++ x) = some (t, r ++ x) := by
@@ -65,7 +68,7 @@ theorem readFrameHeader_append (s x : Src) (h : FHeader) (n : Nat) (rest : Src)
                 exact ⟨hr.1, hr.2.1, by rw [hr.2.2]⟩
 
 /-- a block decoded from `s` is decoded identically from `s ++ x`, leaving `x` behind the rest -/
-theorem decodeOneBlock_append (st st' : FState) (s s1 x : Src) (bh : BHeader)
+theorem decodeOneBlock_append (st st' : FState σ) (s s1 x : Src) (bh : BHeader)
     (h : decodeOneBlock st s = (st', .ok (bh, s1))) :
     decodeOneBlock st (s ++ x) = (st', .ok (bh, s1 ++ x)) := by
   obtain ⟨hlen, rfl, hp, hb, -, -⟩ := decodeOneBlock_ok _ _ _ _ _ h
@@ -81,7 +84,7 @@ theorem decodeOneBlock_append (st st' : FState) (s s1 x : Src) (bh : BHeader)
   rw [e1, hb, List.drop_append_of_le_length hlen]
   rfl
 
-theorem decodeBlocksLoop_append (strat : Strategy) (a c fuel fuel' : Nat) (st st' : FState) (s rest x : Src)
+theorem decodeBlocksLoop_append (strat : Strategy) (a c fuel fuel' : Nat) (st st' : FState σ) (s rest x : Src)
     (hf : s.length < fuel) (hff : fuel ≤ fuel')
     (h : decodeBlocksLoop strat a c fuel st s = (st', .ok rest)) :
     decodeBlocksLoop strat a c fuel' st (s ++ x) = (st', .ok (rest ++ x)) := by
@@ -125,7 +128,7 @@ theorem decodeBlocksLoop_append (strat : Strategy) (a c fuel fuel' : Nat) (st st
           refine ih _ _ _ ?_ (by omega) h
           rw [hl1.2.1, List.length_drop]; omega
 
-theorem Decoder.decodeBlocks_append (d d' : Decoder) (s rest x : Src) (strat : Strategy) (fin : Bool)
+theorem Decoder.decodeBlocks_append (d d' : Decoder σ) (s rest x : Src) (strat : Strategy) (fin : Bool)
     (h : d.decodeBlocks s strat = (d', .ok (rest, fin))) :
     d.decodeBlocks (s ++ x) strat = (d', .ok (rest ++ x, fin)) := by
   cases hst : d.state with
@@ -148,7 +151,7 @@ theorem Decoder.decodeBlocks_append (d d' : Decoder) (s rest x : Src) (strat : S
 
 /-- a `decode_blocks` run that started before the last block reports the frame finished exactly when
 `is_finished()` says so (the checksum, if flagged, was read in the same call) -/
-theorem decodeBlocksLoop_finished_iff (strat : Strategy) (a c fuel : Nat) (st st' : FState) (s rest : Src)
+theorem decodeBlocksLoop_finished_iff (strat : Strategy) (a c fuel : Nat) (st st' : FState σ) (s rest : Src)
     (hnf : st.finished = false) (h : decodeBlocksLoop strat a c fuel st s = (st', .ok rest)) :
     st'.finished = true → st'.header.checksumFlag = true → st'.checksum.isSome = true := by
   induction fuel generalizing st s with
@@ -175,7 +178,7 @@ theorem decodeBlocksLoop_finished_iff (strat : Strategy) (a c fuel : Nat) (st st
         · cases h; intro hf; rw [hb.finished, hnf] at hf; cases hf
         · exact ih _ _ (by rw [hb.finished, hnf]) h
 
-theorem Decoder.decodeBlocks_finished_iff (d d' : Decoder) (s rest : Src) (strat : Strategy) (fin : Bool)
+theorem Decoder.decodeBlocks_finished_iff (d d' : Decoder σ) (s rest : Src) (strat : Strategy) (fin : Bool)
     (hnd : d.blocksDone = false) (h : d.decodeBlocks s strat = (d', .ok (rest, fin))) :
     d'.isFinished = d'.blocksDone := by
   cases hst : d.state with
@@ -201,7 +204,7 @@ theorem Decoder.decodeBlocks_finished_iff (d d' : Decoder) (s rest : Src) (strat
         · rfl
 
 /-- when a `read(room)` leaves nothing collectable, a larger target gets the same bytes -/
-theorem Decoder.read_stable (d : Decoder) (room extra : Nat) (hfin : d.isFinished = d.blocksDone)
+theorem Decoder.read_stable (d : Decoder σ) (room extra : Nat) (hfin : d.isFinished = d.blocksDone)
     (hc : (d.read room).1.canCollect = 0) : d.read (room + extra) = d.read room := by
   cases hst : d.state with
   | none => simp [Decoder.read, hst]
@@ -229,7 +232,7 @@ theorem Decoder.read_stable (d : Decoder) (room extra : Nat) (hfin : d.isFinishe
 
 /-- the per-frame loop of `decode_all` on `s ++ x`, with a larger target and some output already
 written: same frame, `x` untouched behind it, the extra room left over -/
-theorem decodeAllFrame_append (fuel fuel' : Nat) (d d' : Decoder) (s s' x : Src) (room room' extra : Nat)
+theorem decodeAllFrame_append (fuel fuel' : Nat) (d d' : Decoder σ) (s s' x : Src) (room room' extra : Nat)
     (out out' out2 : Array Nat) (hnd : d.blocksDone = false) (hf : s.length < fuel) (hff : fuel ≤ fuel')
     (h : decodeAllFrame fuel d s room out = (d', .ok (s', room', out'))) :
     ∃ y, out' = out ++ y ∧
@@ -286,7 +289,7 @@ theorem decodeAllFrame_append (fuel fuel' : Nat) (d d' : Decoder) (s s' x : Src)
             Array.append_assoc]
 
 
-theorem resetCore_append (dicts : List Dict) (mw : Nat) (f x : Src) (st : FState) (s1 : Src)
+theorem resetCore_append (dicts : List (Dict σ)) (mw : Nat) (f x : Src) (st : FState σ) (s1 : Src)
     (h : resetCore dicts mw f = .replace st (.ok s1)) :
     resetCore dicts mw (f ++ x) = .replace st (.ok (s1 ++ x)) := by
   simp only [resetCore] at h ⊢
@@ -319,7 +322,7 @@ def IsSkippable (seg : List Nat) : Prop :=
   8 ≤ seg.length ∧ Gen.skipMagicLo ≤ leNat (seg.take 4) ∧ leNat (seg.take 4) ≤ Gen.skipMagicHi ∧
   leNat ((seg.drop 4).take 4) = seg.length - 8
 
-theorem decodeAllLoop_skips (segs : List (List Nat)) (hs : ∀ seg ∈ segs, IsSkippable seg) (f : Nat) (d : Decoder)
+theorem decodeAllLoop_skips (segs : List (List Nat)) (hs : ∀ seg ∈ segs, IsSkippable seg) (f : Nat) (d : Decoder σ)
     (rest : Src) (room : Nat) (out : Array Nat) :
     decodeAllLoop (segs.length + f) d (segs.flatten ++ rest) room out = decodeAllLoop f d rest room out := by
   induction segs with
@@ -338,7 +341,7 @@ theorem decodeAllLoop_skips (segs : List (List Nat)) (hs : ∀ seg ∈ segs, IsS
 
 /-- leading skippable frames are transparent to `decode_all`: skipped exactly, nothing written, the
 decoder untouched -/
-theorem Decoder.decodeAll_skips (segs : List (List Nat)) (hs : ∀ seg ∈ segs, IsSkippable seg) (d : Decoder)
+theorem Decoder.decodeAll_skips (segs : List (List Nat)) (hs : ∀ seg ∈ segs, IsSkippable seg) (d : Decoder σ)
     (rest : Src) (room : Nat) : d.decodeAll (segs.flatten ++ rest) room = d.decodeAll rest room := by
   have hlen : segs.length ≤ segs.flatten.length := by
     induction segs with
@@ -370,7 +373,7 @@ def Segment.content : Segment → Array Nat
 /-- a frame segment is valid for a decoder configuration when `decode_all`'s per-frame loop, run on
 the segment alone after `init`, consumes all of it, finishes, and delivers `content` into a target
 of exactly that size -/
-def Segment.Valid (dicts : List Dict) (mw : Nat) : Segment → Prop
+def Segment.Valid (dicts : List (Dict σ)) (mw : Nat) : Segment → Prop
   | .skip b => IsSkippable b
   | .frame b c => ∃ st s1 d2, resetCore dicts mw b = .replace st (.ok s1) ∧
       decodeAllFrame (s1.length + 2) { state := some st, dicts := dicts, maxWindow := mw } s1 c.size #[] = (d2, .ok ([], 0, c))
@@ -378,8 +381,8 @@ def Segment.Valid (dicts : List Dict) (mw : Nat) : Segment → Prop
 def totalContent (segs : List Segment) : Array Nat := segs.foldr (fun sg acc => sg.content ++ acc) #[]
 def totalBytes (segs : List Segment) : List Nat := (segs.map Segment.bytes).flatten
 
-theorem decodeAllLoop_concat (dicts : List Dict) (mw : Nat) (segs : List Segment)
-    (hv : ∀ sg ∈ segs, sg.Valid dicts mw) (f : Nat) (d : Decoder) (hd : d.dicts = dicts ∧ d.maxWindow = mw)
+theorem decodeAllLoop_concat (dicts : List (Dict σ)) (mw : Nat) (segs : List Segment)
+    (hv : ∀ sg ∈ segs, sg.Valid dicts mw) (f : Nat) (d : Decoder σ) (hd : d.dicts = dicts ∧ d.maxWindow = mw)
     (rest : Src) (room : Nat) (out : Array Nat) (hroom : (totalContent segs).size ≤ room) :
     ∃ d', (d'.dicts = dicts ∧ d'.maxWindow = mw) ∧
       decodeAllLoop (segs.length + f) d (totalBytes segs ++ rest) room out =
@@ -424,7 +427,7 @@ theorem decodeAllLoop_concat (dicts : List Dict) (mw : Nat) (segs : List Segment
         simp only [Decoder.reset, hd.1, hd.2, resetCore_append dicts mw b _ st s1 hr]
       rw [hreset]
       simp only
-      have hd1 : ({ d with state := some st } : Decoder) = { state := some st, dicts := dicts, maxWindow := mw } := by
+      have hd1 : ({ d with state := some st } : Decoder σ) = { state := some st, dicts := dicts, maxWindow := mw } := by
         obtain ⟨s0, di, m⟩ := d
         simp only at hd
         simp [hd.1, hd.2]
@@ -445,7 +448,7 @@ theorem decodeAllLoop_concat (dicts : List Dict) (mw : Nat) (segs : List Segment
       rw [e, he, Array.append_assoc]
 
 
-theorem Segment.Valid.bytes_pos {dicts : List Dict} {mw : Nat} {sg : Segment} (h : sg.Valid dicts mw) :
+theorem Segment.Valid.bytes_pos {dicts : List (Dict σ)} {mw : Nat} {sg : Segment} (h : sg.Valid dicts mw) :
     1 ≤ sg.bytes.length := by
   cases sg with
   | skip b => have := h.1; simp only [Segment.bytes]; omega
@@ -459,7 +462,7 @@ theorem Segment.Valid.bytes_pos {dicts : List Dict} {mw : Nat} {sg : Segment} (h
 /-- `decode_all_concat`: ANY concatenation of valid frames and skippable frames (any number, any
 order) decodes through `decode_all` to the concatenation of the frames' contents — exactly, with the
 whole input consumed — for every target at least that large -/
-theorem Decoder.decodeAll_concat (segs : List Segment) (d : Decoder)
+theorem Decoder.decodeAll_concat (segs : List Segment) (d : Decoder σ)
     (hv : ∀ sg ∈ segs, sg.Valid d.dicts d.maxWindow) (room : Nat) (hroom : (totalContent segs).size ≤ room) :
     ∃ d', d.decodeAll (totalBytes segs) room = (d', .ok (totalContent segs)) := by
   have hlen : segs.length ≤ (totalBytes segs).length := by
@@ -486,7 +489,7 @@ theorem Decoder.decodeAll_concat (segs : List Segment) (d : Decoder)
 
 /-! ### a checker for `Segment.Valid` (for non-vacuity examples and tests) -/
 
-def Segment.validB (dicts : List Dict) (mw : Nat) : Segment → Bool
+def Segment.validB (dicts : List (Dict σ)) (mw : Nat) : Segment → Bool
   | .skip b =>
     decide (8 ≤ b.length) && decide (Gen.skipMagicLo ≤ leNat (b.take 4)) && decide (leNat (b.take 4) ≤ Gen.skipMagicHi) &&
       decide (leNat ((b.drop 4).take 4) = b.length - 8)
@@ -498,7 +501,7 @@ def Segment.validB (dicts : List Dict) (mw : Nat) : Segment → Bool
       | _ => false
     | _ => false
 
-theorem Segment.valid_of_validB (dicts : List Dict) (mw : Nat) (sg : Segment) (h : sg.validB dicts mw = true) :
+theorem Segment.valid_of_validB (dicts : List (Dict σ)) (mw : Nat) (sg : Segment) (h : sg.validB dicts mw = true) :
     sg.Valid dicts mw := by
   cases sg with
   | skip b =>
@@ -578,7 +581,7 @@ theorem readFrameHeader_take_fits (s : Src) (h : FHeader) (n : Nat) (rest : Src)
                   rw [hrr]; congr 1; omega
 
 
-theorem resetCore_take_fits (dicts : List Dict) (mw : Nat) (f : Src) (st : FState) (s1 : Src) (k : Nat)
+theorem resetCore_take_fits (dicts : List (Dict σ)) (mw : Nat) (f : Src) (st : FState σ) (s1 : Src) (k : Nat)
     (h : resetCore dicts mw f = .replace st (.ok s1)) (hk : st.bytesRead ≤ k) :
     resetCore dicts mw (f.take k) = .replace st (.ok (s1.take (k - st.bytesRead))) := by
   simp only [resetCore] at h ⊢
@@ -614,7 +617,7 @@ theorem resetCore_take_fits (dicts : List Dict) (mw : Nat) (f : Src) (st : FStat
             exact ⟨h.1, by rw [h.2, hbr]⟩
 
 /-- `reset` on a truncated source that still contains the whole frame header: same state, rest truncated -/
-theorem Decoder.reset_take_fits (d d0 : Decoder) (f rest : Src) (k : Nat) (h : d.reset f = (d0, .ok rest))
+theorem Decoder.reset_take_fits (d d0 : Decoder σ) (f rest : Src) (k : Nat) (h : d.reset f = (d0, .ok rest))
     (hk : d0.bytesRead ≤ k) : d.reset (f.take k) = (d0, .ok (rest.take (k - d0.bytesRead))) := by
   rcases Decoder.reset_cases d f with ⟨e, he⟩ | ⟨st, o, he, hrc⟩
   · rw [he] at h; cases h
